@@ -38,7 +38,7 @@ let () =
     (fun (c : Caseio.case) ->
       (* boot2: the exogenous model is given to DrawParticles' two-argument constructor, which only stores it;
          the state model has none (C13_Model.init_of ViaDrawParticlesCtor = init false) *)
-      let have = Caseio.meta c "exo" = "1" && c.kind <> "boot2" in
+      let have = Caseio.meta c "exo" = "1" && (c.kind <> "boot2" || Caseio.meta c "attach" = "1") in
       let k = kind_of c.kind in
       Caseio.out_begin c.id;
       if Caseio.has c "ext" then begin
